@@ -31,6 +31,9 @@ Inductive cst :=
 | CDotStar (l : cst) (k : cont)
 | CIndex (l : cst) (n : Z) | CSlice (l : cst) (off : Z) (sl : slice_parts) (k : cont)
 | CWild (l : cst) (k : cont) | CFlatten (l : cst) (k : cont) | CFilter (l p : cst) (k : cont)
+(* not productions of the grammar: the two forms the code accepts beyond it (see [wfb]) *)
+| CAmp (x : cst)                                               (* [&x] outside an argument list *)
+| CCallOn (l : cst) (off : Z) (name : str) (args : list (bool * cst))   (* [l(args)] where [l] is not an identifier token *)
 with cont := KNone | KDot (d : cst) | KExpr (x : cst).
 
 Definition optnum (o : option Z) : list token := match o with Some n => [TNumber n] | None => [] end.
@@ -79,6 +82,19 @@ Fixpoint flat (c : cst) : list token :=
   | CWild l k => flat l ++ TLbracket :: TStar :: TRbracket :: flatk k
   | CFlatten l k => flat l ++ TFlatten :: flatk k
   | CFilter l p k => flat l ++ TFilter :: flat p ++ TRbracket :: flatk k
+  | CAmp x => TAmpersand :: flat x
+  | CCallOn l _ _ args =>
+      flat l ++ TLparen ::
+        match args with
+        | [] => [TRparen]
+        | (b, x) :: r =>
+            (if b then [TAmpersand] else []) ++ flat x ++
+              (fix go (args : list (bool * cst)) : list token :=
+                 match args with
+                 | [] => [TRparen]
+                 | (b', y) :: r' => TComma :: (if b' then [TAmpersand] else []) ++ flat y ++ go r'
+                 end) r
+        end
   end
 with flatk (k : cont) : list token :=
   match k with
@@ -117,6 +133,8 @@ Fixpoint erase (c : cst) : ast :=
   | CWild l k => AProjection (erase l) (erasek k)
   | CFlatten l k => AProjection (AFlatten (erase l)) (erasek k)
   | CFilter l p k => AProjection (erase l) (ACondition (erase p) (erasek k))
+  | CAmp x => AExpref (erase x)
+  | CCallOn _ off name args => AFunction off name (map (fun a : bool * cst => let '(b, x) := a in if b then AExpref (erase x) else erase x) args)
   end
 with erasek (k : cont) : ast :=
   match k with
@@ -153,6 +171,17 @@ Qed.
 Lemma erase_call off name args : erase (CCall off name args) = AFunction off name (map erase_arg args).
 Proof. cbn [erase]. f_equal. apply map_ext. intros [b x]. reflexivity. Qed.
 
+Lemma flat_callon l off name args :
+  flat (CCallOn l off name args) =
+    flat l ++ TLparen :: match args with [] => [TRparen] | a :: r => flat_arg a ++ args_tail r end.
+Proof.
+  cbn [flat]. do 2 f_equal. destruct args as [|[b x] r]; [reflexivity|]. unfold flat_arg. cbn [fst snd]. rewrite <- app_assoc. do 2 f_equal.
+  induction r as [|[b' y] r IH]; cbn [args_tail]; [reflexivity|]. unfold flat_arg. cbn [fst snd]. rewrite <- app_assoc. f_equal. f_equal. f_equal. exact IH.
+Qed.
+
+Lemma erase_callon l off name args : erase (CCallOn l off name args) = AFunction off name (map erase_arg args).
+Proof. cbn [erase]. f_equal. apply map_ext. intros [b x]. reflexivity. Qed.
+
 Lemma erase_mhash q k e kvs :
   erase (CMHash (q, k, e) kvs) = AMultiHash ((k, erase e) :: map (fun kv : bool * str * cst => (snd (fst kv), erase (snd kv))) kvs).
 Proof. cbn [erase]. do 2 f_equal. apply map_ext. intros [[q' k'] x]. reflexivity. Qed.
@@ -163,7 +192,7 @@ Proof. cbn [erase]. do 2 f_equal. apply map_ext. intros [[q' k'] x]. reflexivity
     constrain the leftmost constituent of the operand. *)
 Fixpoint head (c : cst) : cst :=
   match c with
-  | CBin _ l _ | CDot l _ | CDotStar l _ | CIndex l _ | CSlice l _ _ _ | CWild l _ | CFlatten l _ | CFilter l _ _ => head l
+  | CBin _ l _ | CDot l _ | CDotStar l _ | CIndex l _ | CSlice l _ _ _ | CWild l _ | CFlatten l _ | CFilter l _ _ | CCallOn l _ _ _ => head l
   | _ => c
   end.
 
@@ -172,48 +201,76 @@ Definition dot_ok (h : cst) : bool :=
 Definition brk_ok (h : cst) : bool :=
   match h with CIndexP _ | CSliceP _ _ _ | CWildP _ | CFilterP _ _ => true | _ => false end.
 
-(** well-formed syntax trees: the trees of the JMESPath grammar *)
-Fixpoint wf (c : cst) : Prop :=
+(** the same categories as the code reads them: [&x] after a dot, a multi-select list after a projection *)
+Definition dotx_ok (h : cst) : bool := dot_ok h || match h with CAmp _ => true | _ => false end.
+Definition brkx_ok (h : cst) : bool := brk_ok h || match h with CMList _ _ => true | _ => false end.
+
+(** Well-formed syntax trees.  [wfb false] — the trees of the JMESPath grammar;
+    [wfb true] — the trees of the language the code accepts: the grammar plus
+    [&x] as an ordinary prefix form, a call applied to any operand that denotes
+    a field, [&x] after a dot, and a multi-select list after a projection. *)
+Fixpoint wfb (ext : bool) (c : cst) : Prop :=
   match c with
   | CCurrent | CIdent _ | CQIdent _ | CLit _ | CIndexP _ => True
-  | CNot x | CParen x => wf x
-  | CMList e es => wf e /\ (fix all (es : list cst) : Prop := match es with [] => True | x :: r => wf x /\ all r end) es
+  | CNot x | CParen x => wfb ext x
+  | CMList e es => wfb ext e /\ (fix all (es : list cst) : Prop := match es with [] => True | x :: r => wfb ext x /\ all r end) es
   | CMHash (_, _, e) kvs =>
-      wf e /\ (fix all (kvs : list (bool * str * cst)) : Prop := match kvs with [] => True | (_, _, x) :: r => wf x /\ all r end) kvs
-  | CCall _ _ args => (fix all (args : list (bool * cst)) : Prop := match args with [] => True | (_, x) :: r => wf x /\ all r end) args
-  | CStarP k | CFlattenP k | CWildP k | CSliceP _ _ k => wfk k
-  | CFilterP p k => wf p /\ wfk k
-  | CBin _ l r => wf l /\ wf r
-  | CDot l d => wf l /\ wf d /\ dot_ok (head d) = true
-  | CDotStar l k => wf l /\ wfk k
-  | CIndex l _ => wf l
-  | CSlice l _ _ k | CWild l k | CFlatten l k => wf l /\ wfk k
-  | CFilter l p k => wf l /\ wf p /\ wfk k
+      wfb ext e /\ (fix all (kvs : list (bool * str * cst)) : Prop := match kvs with [] => True | (_, _, x) :: r => wfb ext x /\ all r end) kvs
+  | CCall _ _ args => (fix all (args : list (bool * cst)) : Prop := match args with [] => True | (_, x) :: r => wfb ext x /\ all r end) args
+  | CStarP k | CFlattenP k | CWildP k | CSliceP _ _ k => wfkb ext k
+  | CFilterP p k => wfb ext p /\ wfkb ext k
+  | CBin _ l r => wfb ext l /\ wfb ext r
+  | CDot l d => wfb ext l /\ wfb ext d /\ (if ext then dotx_ok else dot_ok) (head d) = true
+  | CDotStar l k => wfb ext l /\ wfkb ext k
+  | CIndex l _ => wfb ext l
+  | CSlice l _ _ k | CWild l k | CFlatten l k => wfb ext l /\ wfkb ext k
+  | CFilter l p k => wfb ext l /\ wfb ext p /\ wfkb ext k
+  | CAmp x => ext = true /\ wfb ext x
+  | CCallOn l _ name args =>
+      ext = true /\ wfb ext l /\ erase l = AField name /\
+      (fix all (args : list (bool * cst)) : Prop := match args with [] => True | (_, x) :: r => wfb ext x /\ all r end) args
   end
-with wfk (k : cont) : Prop :=
+with wfkb (ext : bool) (k : cont) : Prop :=
   match k with
   | KNone => True
-  | KDot d => wf d /\ dot_ok (head d) = true
-  | KExpr x => wf x /\ brk_ok (head x) = true
+  | KDot d => wfb ext d /\ (if ext then dotx_ok else dot_ok) (head d) = true
+  | KExpr x => wfb ext x /\ (if ext then brkx_ok else brk_ok) (head x) = true
   end.
 
-Lemma wf_mlist e es : wf (CMList e es) <-> wf e /\ Forall wf es.
+Notation wf := (wfb false).
+Notation wfk := (wfkb false).
+
+Lemma wf_mlist ext e es : wfb ext (CMList e es) <-> wfb ext e /\ Forall (wfb ext) es.
 Proof.
-  cbn [wf]. split; intros [H1 H2]; (split; [exact H1|]).
+  cbn [wfb]. split; intros [H1 H2]; (split; [exact H1|]).
   - induction es as [|x r IH]; [constructor|]. destruct H2 as [Hx Hr]. constructor; [exact Hx|exact (IH Hr)].
   - induction H2 as [|x r Hx Hr IH]; [exact I|]. split; [exact Hx|exact IH].
 Qed.
 
-Lemma wf_mhash q k e kvs : wf (CMHash (q, k, e) kvs) <-> wf e /\ Forall (fun kv : bool * str * cst => wf (snd kv)) kvs.
+Lemma wf_mhash ext q k e kvs : wfb ext (CMHash (q, k, e) kvs) <-> wfb ext e /\ Forall (fun kv : bool * str * cst => wfb ext (snd kv)) kvs.
 Proof.
-  cbn [wf]. split; intros [H1 H2]; (split; [exact H1|]).
+  cbn [wfb]. split; intros [H1 H2]; (split; [exact H1|]).
   - induction kvs as [|[[q' k'] x] r IH]; [constructor|]. destruct H2 as [Hx Hr]. constructor; [exact Hx|exact (IH Hr)].
   - induction H2 as [|[[q' k'] x] r Hx Hr IH]; [exact I|]. split; [exact Hx|exact IH].
 Qed.
 
-Lemma wf_call off name args : wf (CCall off name args) <-> Forall (fun a : bool * cst => wf (snd a)) args.
+Lemma wf_call ext off name args : wfb ext (CCall off name args) <-> Forall (fun a : bool * cst => wfb ext (snd a)) args.
 Proof.
-  cbn [wf]. split; intros H.
+  cbn [wfb]. split; intros H.
   - induction args as [|[b x] r IH]; [constructor|]. destruct H as [Hx Hr]. constructor; [exact Hx|exact (IH Hr)].
   - induction H as [|[b x] r Hx Hr IH]; [exact I|]. split; [exact Hx|exact IH].
 Qed.
+
+Lemma wf_callon l off name args :
+  wfb true (CCallOn l off name args) <-> wfb true l /\ erase l = AField name /\ Forall (fun a : bool * cst => wfb true (snd a)) args.
+Proof.
+  cbn [wfb]. split.
+  - intros (_ & Hl & He & H). split; [exact Hl|]. split; [exact He|].
+    induction args as [|[b x] r IH]; [constructor|]. destruct H as [Hx Hr]. constructor; [exact Hx|exact (IH Hr)].
+  - intros (Hl & He & H). split; [reflexivity|]. split; [exact Hl|]. split; [exact He|].
+    induction H as [|[b x] r Hx Hr IH]; [exact I|]. split; [exact Hx|exact IH].
+Qed.
+
+(** a tree of the grammar is a tree of the code's language *)
+Lemma dot_ok_x h : dot_ok h = true -> dotx_ok h = true. Proof. unfold dotx_ok. intros ->. reflexivity. Qed.
+Lemma brk_ok_x h : brk_ok h = true -> brkx_ok h = true. Proof. unfold brkx_ok. intros ->. reflexivity. Qed.
